@@ -156,7 +156,7 @@ where
     }
 
     pub fn owned(&self) -> Result<T::Owned> {
-        T::owned(&self.test_data.data.try_borrow()?[..])
+        T::owned(&self.test_data.data.try_borrow()?[..self.test_data.len.get()])
     }
 
     pub fn underlying_data(&self) -> Result<Vec<u8>> {
